@@ -9,7 +9,7 @@ SCHED = "E3 stateless DFS over task orders of run_schedule through the fork/join
 HIST = "E1 explicit-state BFS over operation histories on the real World (mc/hist)"
 CHECKS = {
  "C01": ("model_checking", "§2 C01", HIST,
-   "Every operation history up to the stated depth over 4-5 alphabets is executed on the real World and compared after every operation with a plain map model through the public query API; exhaustive within the bounds reported in the evidence.",
+   "Every operation history up to the stated depth over 7 alphabets (incl. registries of exactly 8 and of 10 components, and several operations through one Entry handle) is executed on the real World and compared after every operation with a plain map model through the public query API; exhaustive within the bounds reported in the evidence.",
    "registry S4=(Heap,Zst,Big,Small)+2 resources; depth bounds per alphabet; values abstracted from the state hash; rustc/std/hashbrown/serde trusted"),
  "C02": ("model_checking", "§2 C02", HIST,
    "Same exploration; after every operation every identifier ever issued in that history is re-queried (contains, entry, Entries::entry, stale remove); freshly issued identifiers are compared with the full issued list, across clone/clone_from/serde.",
@@ -24,8 +24,8 @@ CHECKS = {
    "Same exploration; after every operation the read-only structural dump (hook H1) is audited: slots <-> rows bijection, free list = inactive slots, len, one table per component set, lookup tables consistent, addresses owned by this world.",
    "audit reads brood's private state through cfg(brood_verif) hook H1"),
  "C15": ("model_checking", "§2 C15", HIST,
-   "Same exploration on a world with two resources: both resources are read back after every operation (incl. clone, clone_from, serde round trips, entity ops) and written through get_mut, view_resources and query resource views in different orders.",
-   "two resources; resource-view grid (subset x order x kind) is part of the C03/C15 grid engine when built"),
+   "Same exploration on a world with two resources: both resources are read back after every operation (incl. clone, clone_from, serde round trips, entity ops) and written through get_mut, view_resources and query resource views in different orders; plus a generated grid of every ordered selection and &/&mut assignment of views over a three-resource list through view_resources, query, par_query and run_system; plus every resource-view schedule of the E3 family.",
+   "the two cyclic 3-orders of resource views do not type-check in brood and cannot be exercised (DESIGN.md observation)"),
  "C06": ("model_checking", "§2 C06", HIST,
    "BFS in which every reachable state gets a lock-step twin made by a serde round trip in each of three encodings (JSON text = row-wise, compact tokens = column-wise, human-readable tokens); round trip must succeed, compare equal both ways and preserve slots/generations/free list; every later operation is applied to both worlds, which must issue identical identifiers and hold identical contents; round trips and clones are also ordinary operations.",
    "serde_json and serde_assert as the two formats; lock-step identity is not demanded across clear() over several populated tables (identifier release order there depends on heap addresses, DESIGN.md)"),
@@ -33,7 +33,7 @@ CHECKS = {
    "(a) BFS with clone lock-step twins, snapshots, clone_from and swap as operations, the untouched world re-checked after every operation; (b) every ordered pair (src,dst) of a reachable state set: dst.clone_from(src) / src.clone(), contents, equality (clone), audits, address disjointness, then every operation of a 12-op alphabet on either side with the other side re-checked, then both drop orders.",
    "state set for pairs bounded as reported; == demanded of clone() only (clone_from keeps emptied tables)"),
  "C16": ("model_checking", "§2 C16", HIST + " (pair mode)",
-   "Every ordered pair of a reachable state set (values normalised to a function of identifier and component): reflexive, symmetric, equal implies same contents; every state against 12 single perturbations (value, resource, live set, component set): unequal in both directions. clone and round trips comparing equal are checked by C10/C06 runs.",
+   "Every ordered pair of a reachable state set (values normalised to a function of identifier and component): reflexive, symmetric, equal implies same contents; every state against 12 single perturbations (value, resource, live set, component set): unequal in both directions. a clone and three round trips of every state must compare equal both ways.",
    "state set bounded as reported"),
  "C07": ("model_checking", "§2 C07", SCHED,
    "Every schedule type of a generated family (ordered pairs/triples of view kinds, filter-disjoint writers, resource views, entry views, ParSystems, longer schedules) x 86 worlds x 2 address salts x every permutation of every fork/join nest, executed on the real run_schedule through the fork/join seam; per-task run count = 1 and final world, resources and every system's own state equal those of run_system/run_par_system applied one by one in declared order.",
@@ -42,13 +42,13 @@ CHECKS = {
    "Same runs. Every task records address/size/mode of everything it is handed (iterator items, resource views, every reference reachable through its entry views); for every two tasks of one fork/join nest (i.e. permitted to overlap) no two ranges overlap with one side mutable. A happens-before argument over the fork/join structure, so all interleavings of a run are covered at once.",
    "as C07"),
  "C12": ("model_checking", "§2 C12", SCHED,
-   "Same runs. On worlds where nothing is borrowed the partition of tasks into fork/join nests must equal a greedy in-order grouping by declared access computed by the harness; on populated worlds no task may run in a later nest than its greedy group. Termination: every explored order runs to completion under the seam; every schedule also returns on real pools of 1, 2 and 4 threads (regression guard, sampling).",
-   "greedy reference ignores filters and entity::Identifier, as the property states"),
+   "Same runs. The partition of the tasks into fork/join nests must equal, on every catalogue world, the one predicted by a reference model of the scheduler written in the harness (static stages = greedy in-order grouping by declared access; at the end of a stage the next stage's tasks are started early, in order, when their resource claims and per-table component claims merge); a task placed later than predicted, a predicted group that is split, or two same-stage tasks whose fork/join intervals do not intersect (serialised) is a violation. Termination: every explored order runs to completion under the seam; every schedule also returns on real pools of 1, 2 and 4 threads (regression guard, sampling).",
+   "the reference model is ~80 lines (sched/src/lib.rs model_nests) and is itself validated by conforming to the implementation on all 377 schedule types x 86 worlds; greedy reference ignores filters and entity::Identifier, as the property states"),
  "C11": ("fault_enumeration", "§2 C11", FAULT,
    "Every single edit (delete, duplicate, swap, alter; per-token-kind alterations incl. every bit flip of archetype identifier bytes, declared lengths +-1, field/struct renames, type changes) at every position of every base serialization in compact-token, human-readable-token and JSON-text form (JSON: also truncation at every byte offset, every value-tree edit, duplicated keys); thorough adds all swaps and all pairs of edits on the smallest bases. Each input is deserialized on the real code: Err (no double drop, no allocator misuse) or Ok(world) that passes the full structural audit, resolves every identifier, survives every continuation operation of a 12-op alphabet and drops cleanly.",
    "declared lengths bounded by input size; serde_assert/serde_json are the environment; leaks on error paths are reported, not violations"),
  "C17": ("fault_enumeration", "§2 C17", FAULT,
-   "For every (base world, operation that calls user code, callback kind, call index k below the count observed in the unfaulted run): a panic is armed at exactly that call, the operation is run, then each of 4 aftermaths (drop; read everything; clear; remove every identifier) is judged by the drop ledger and the checking allocator; process aborts from std's unsafe-precondition checks are attributed to the armed case by a supervising parent. 41 operations incl. remove, clear, Entry::add/remove, clone, clone_from (6 sources), drop, (de)serialization in 3 encodings, ==, Debug, run_system, run_par_system, run_schedule.",
+   "For every (base world, operation that calls user code, callback kind, call index k below the count observed in the unfaulted run): a panic is armed at exactly that call, the operation is run, then each of 6 aftermaths (drop; read everything; clear; remove every identifier; Entry::add through every identifier; Entry::remove + entry query through every identifier) is judged by the drop ledger and the checking allocator; process aborts from std's unsafe-precondition checks are attributed to the armed case by a supervising parent. 41 operations incl. remove, clear, Entry::add/remove, clone, clone_from (6 sources), drop, (de)serialization in 3 encodings, ==, Debug, run_system, run_par_system, run_schedule.",
    "second panics never armed; leaks allowed; three (operation, callback) pairs are open known findings (known_findings.json)"),
  "C14": ("exploration", "§2 C14", "E6 generated program families type- and borrow-checked by rustc against the current brood rlib (tools/progs.py)",
    "302 generated programs in 7 families (every view-kind pair on one component in Views!/entry queries/par queries; iterator vs entry views; entry vs entry views; resource view pairs in 3 APIs; repeated single-entity access; components/resources outside the registry in 15 APIs; 30 thread-crossing programs with Rc/Cell payloads incl. schedules), each must-reject program paired with a conflict-free twin that must compile; the verdict of a small reference model of Rust's aliasing and Send/Sync rules is compared with rustc's verdict.",
